@@ -345,6 +345,14 @@ def wl_dicts(ctx, rng, i):
                     ctx.count("unsupported_version_probes")
                     if r != "refused":
                         ctx.violation("unsupported-version-accepted", "%s with version=%r did not refuse (%s)" % (lab, bogus, r), {"input": d, "version": repr(bogus), "entry_point": lab})
+            if idkind == "valid-id":
+                # ... neither does a spec_version in the content that names no version the library knows
+                for junk in ("2.2", 2.1, "21", ""):
+                    r = outcome(lambda: stix2.parse(dict(d, spec_version=junk), allow_custom=True))
+                    ctx.ev()
+                    ctx.count("unsupported_version_probes")
+                    if r != "refused" and junk != "":
+                        ctx.violation("unsupported-version-accepted", "parse of content whose spec_version is %r did not refuse (%s)" % (junk, r), {"input": dict(d, spec_version=junk), "entry_point": "parse (version detected)"})
             for v in VERSIONS:
                 ref = outcome(lambda: stix2.parse(dict(d), allow_custom=True, version=v))
                 if idkind == "version-1-uuid" and v == "2.0" and ref != "refused":
